@@ -3,6 +3,7 @@ import json
 import os
 
 import fam_l
+import fam_misc
 from fam_l import base_consts
 from vlib import Inconclusive, build_harness, log
 
@@ -110,6 +111,7 @@ CHECKS = {
     "C04": dict(level="model_checking", run=run_l(plans_c04)),
     "C06": dict(level="model_checking", run=run_l(plans_c06)),
     "C15": dict(level="model_checking", run=run_l(plans_c15)),
+    "C19": dict(level="model_checking", run=fam_misc.run_c19),
     "C16": dict(level="model_checking", run=run_l(plans_c16)),
 }
 
